@@ -85,7 +85,7 @@ func smInit(init string) (*cors.Middleware, smRef, error) {
 	return m, smRef{cfg: "A"}, err
 }
 
-var smSuite []vlib.Req
+var smSuite, smSuiteFull []vlib.Req // the thinned suite (state-machine part) and the full one (diagnostics part)
 
 // smFresh builds a middleware directly for a reference state.
 func smFresh(r smRef) (*cors.Middleware, error) {
@@ -111,6 +111,7 @@ func smEnsure() { smOnce.Do(smPrepare) }
 
 func smPrepare() {
 	smSuite = suiteFor(smA, smB, smC, smD, smE)
+	smSuiteFull = smSuite
 	// the state-machine checks observe the whole suite after every step of every history: keep it to a few
 	// hundred requests (deterministic stride; the first block with the non-CORS probes is kept whole)
 	const maxSuite = 360
@@ -390,8 +391,8 @@ func checkC09(c *vlib.Ctx) (string, string) {
 		}
 	}
 	for _, name := range []string{"A", "B", "C", "D", "E"} {
-		for i := range smSuite {
-			r := smSuite[i]
+		for i := range smSuiteFull {
+			r := smSuiteFull[i]
 			c.Transitions.Add(2)
 			ck.Try(c09Case{Init: "debug-only-diagnostics", DiagCfg: name, DiagReq: &r})
 		}
